@@ -65,7 +65,7 @@ type hist struct {
 }
 
 func (h *hist) fatalf(format string, a ...any) {
-	h.t.Fatalf("%s\nhistory: %s", fmt.Sprintf(format, a...), h.cs.Descriptor())
+	h.t.Fatalf("%s", clipLines(fmt.Sprintf("%s\nhistory: %s", fmt.Sprintf(format, a...), h.cs.Descriptor()), 16000))
 }
 
 func (h *hist) P() *nodesim.Node { return h.g.Nodes[0] }
@@ -112,6 +112,7 @@ func runHistory(t *rapid.T, rec *ev.Rec, forceNestedEmptyDex bool) {
 		ra := mk("RA", 0, 1, rg, nil)
 		h.root = &nodesim.Group{Sim: h.sim, Ring: h.ring, Nodes: []*nodesim.Node{ra}}
 		h.rootW = h.w.ForChain(1, 2)
+		h.rootW.Committees = []uint64{1, 2} // root validators keep serving the nested committee when they edit their stake
 		h.w = h.w.ForChain(2, 1)
 		h.g = &nodesim.Group{Sim: h.sim, Ring: h.ring, Nodes: []*nodesim.Node{mk("P", 0, 2, ng, ra), mk("R", 1, 2, ng, ra), mk("X", 2, 2, ng, ra)}}
 		h.s = mk("S", 3, 2, ng, ra)
@@ -182,7 +183,9 @@ func runHistory(t *rapid.T, rec *ev.Rec, forceNestedEmptyDex bool) {
 				h.rootStep()
 			}
 		}
-		h.height(syncLockstep)
+		if !h.height(syncLockstep) {
+			break
+		}
 	}
 	if !syncLockstep {
 		for i, qc := range h.g.Certified {
@@ -218,7 +221,11 @@ func (h *hist) rootStep() {
 			_ = ra.AddTx(tx.Bytes)
 		}
 	}
-	vs, _ := ra.Committee(ra.Height())
+	vs, ce := ra.Committee(ra.Height())
+	if ce != nil {
+		h.cs.Class("degenerate:no-root-committee-left")
+		return
+	}
 	r, err := h.root.Step(nodesim.StepOpts{Proposer: 0, Signers: h.quorum(vs)})
 	if err != nil || !r.OK() {
 		h.fatalf("root chain step failed: %v %v", err, r.Err())
@@ -283,10 +290,14 @@ func (h *hist) perturb(n *nodesim.Node, where string) {
 	}
 }
 
-// height runs one height of the history on all paths
-func (h *hist) height(syncLockstep bool) {
+// height runs one height on all paths; false = the chain cannot continue (no committee left: documented degenerate case)
+func (h *hist) height(syncLockstep bool) bool {
 	t, P, R, X := h.t, h.P(), h.R(), h.X()
 	ht := P.Height()
+	if vs, e := P.Committee(P.C.RootChainHeight()); e != nil || vs.ValidatorSet == nil || len(vs.ValidatorSet.ValidatorSet) == 0 {
+		h.cs.Class("degenerate:no-committee-left(history ends)")
+		return false
+	}
 	h.offered = nil
 	add := func(n int) {
 		for i := 0; i < n; i++ {
@@ -325,8 +336,11 @@ func (h *hist) height(syncLockstep bool) {
 		if a, e := P.Produce(); e == nil {
 			alt = a
 			altQC = nodesim.NewQC(a, P.ViewFor(lib.Phase_PRECOMMIT_VOTE, 0), P.C.PublicKey)
-			vs, _ := P.Committee(altQC.Header.RootHeight)
-			_ = nodesim.Sign(altQC, vs, h.ring, nodesim.AllSigners(vs))
+			if vs, ce := P.Committee(altQC.Header.RootHeight); ce == nil {
+				_ = nodesim.Sign(altQC, vs, h.ring, nodesim.AllSigners(vs))
+			} else {
+				alt, altQC = nil, nil
+			}
 		}
 	}
 	add(nTx - nTx/2)
@@ -523,6 +537,7 @@ func (h *hist) height(syncLockstep bool) {
 			}
 		}
 	}
+	return true
 }
 
 // compareCert: the certificate a node has indexed for the height is byte-identical to the certified one
@@ -609,4 +624,15 @@ func poolList(n *nodesim.Node) string {
 		sb.WriteByte(',')
 	}
 	return sb.String()
+}
+
+// clipLines shortens every line of a failure message (rapid fail files must stay below 64 KiB per line to be loadable)
+func clipLines(s string, max int) string {
+	lines := strings.Split(s, "\n")
+	for i, l := range lines {
+		if len(l) > max {
+			lines[i] = l[:max] + fmt.Sprintf("...(+%d bytes)", len(l)-max)
+		}
+	}
+	return strings.Join(lines, "\n")
 }
